@@ -35,10 +35,13 @@ type (
 	SSlice  struct{ X, Lo, Hi SExpr }
 	SCall   struct{ Fn string; Args []SExpr }
 	SOld    struct{ X SExpr }
+	SPrev   struct{ X SExpr }
 	SQuant  struct {
-		Forall bool
-		Vars   []string
-		Body   SExpr
+		Forall  bool
+		Vars    []string
+		Body    SExpr
+		Bounded bool // "forall k in [lo, hi) :: body" with constant bounds: expanded
+		Lo, Hi  int64
 	}
 	SIte struct{ C, A, B SExpr }
 )
@@ -153,8 +156,23 @@ func (p *specParser) parseExpr() SExpr {
 				break
 			}
 		}
+		if p.lx.kind == 'i' && p.lx.tok == "in" {
+			p.lx.next()
+			p.expect("[")
+			lo := p.parseAdd()
+			p.expect(",")
+			hi := p.parseAdd()
+			p.expect(")")
+			p.expect("::")
+			li, ok1 := lo.(*SInt)
+			hi2, ok2 := hi.(*SInt)
+			if !ok1 || !ok2 {
+				panic("bounded quantifier needs constant bounds")
+			}
+			return &SQuant{Forall: fa, Vars: vars, Body: p.parseExpr(), Bounded: true, Lo: li.V, Hi: hi2.V}
+		}
 		p.expect("::")
-		return &SQuant{fa, vars, p.parseExpr()}
+		return &SQuant{Forall: fa, Vars: vars, Body: p.parseExpr()}
 	}
 	return p.parseIff()
 }
@@ -322,6 +340,11 @@ func (p *specParser) parsePrimary() SExpr {
 			e := p.parseExpr()
 			p.expect(")")
 			return &SOld{e}
+		case "prev":
+			p.expect("(")
+			e := p.parseExpr()
+			p.expect(")")
+			return &SPrev{e}
 		case "ite":
 			p.expect("(")
 			c := p.parseExpr()
@@ -368,6 +391,7 @@ type Clause struct {
 
 type LoopSpec struct {
 	Invariants []Clause
+	Steps      []Clause // two-state conditions checked at every back edge; prev(e) = value at loop head
 	Decreases  *Clause
 }
 
@@ -539,6 +563,8 @@ func (c *Contracts) loadFile(path string, pkgName string) error {
 				ls.Invariants = append(ls.Invariants, cl)
 			case "decreases":
 				ls.Decreases = &cl
+			case "step":
+				ls.Steps = append(ls.Steps, cl)
 			default:
 				return fmt.Errorf("%s:%d: bad loop clause kind %s", path, j.line, parts[1])
 			}
